@@ -429,7 +429,7 @@ pub fn c10(c: &Collector, g: &mut Guard) {
             }
         },
     );
-    let lb = large_bases(c, vec![Fill::F0, Fill::F1, Fill::F7]);
+    let lb = large_bases(c, vec![Fill::F0, Fill::F1, Fill::F3, Fill::F7]);
     sweep(c, &lb, |_| vec![Op::Display], |c, t, local| {
         local.count("large_geometry_transitions");
         if let Ok((_, post, Some(d))) = t.outcome {
@@ -1252,6 +1252,33 @@ pub fn c14(c: &Collector, g: &mut Guard) {
             refine_all(c, "C14", "E2.depth1.large", t, local);
         },
     );
+    // deep nesting: 40 saves at distinct positions / renditions, then k restores for every k
+    let deep_base = match build(9, 7, &[]) {
+        Ok(s) => vec![Base { columns: 9, lines: 7, script: vec![], screen: s }],
+        Err(_) => vec![],
+    };
+    sweep(
+        c,
+        &deep_base,
+        |_| {
+            let mut v = Vec::new();
+            let mut pushes = String::new();
+            for i in 0..40u32 {
+                pushes.push_str(&format!("\x1b[{};{}H\x1b[{}m\x1b7", 1 + i % 7, 1 + (i * 3) % 9, 30 + i % 8));
+                for k in [1u32, 2, 3, 8, 9, 16, 17, 32, 33, 40] {
+                    if k <= i + 1 {
+                        let pops = "\x1b8".repeat(k as usize);
+                        v.push(Op::Feed(vec![format!("{}\x1b[H\x1b[m{}", pushes, pops)], true));
+                    }
+                }
+            }
+            v
+        },
+        |c, t, local| {
+            local.count("deep_stack_histories");
+            refine_all(c, "C14", "E2.deep-stack", t, local);
+        },
+    );
     // every other operation leaves the stack unchanged
     let fb: Vec<Base> = bases.iter().filter(|b| !b.screen.savepoints.is_empty()).step_by(5).cloned().collect();
     sweep(
@@ -1340,6 +1367,7 @@ pub fn c14(c: &Collector, g: &mut Guard) {
     g.need(c, "restore_empty_stack");
     g.need(c, "stack_frame_checks");
     g.need(c, "nested_restore");
+    g.need(c, "deep_stack_histories");
 }
 
 // =====================================================================  C12
@@ -1426,6 +1454,26 @@ pub fn c12(c: &Collector, g: &mut Guard) {
         |c, t, local| {
             local.count("large_geometry_transitions");
             refine_all(c, "C12", "E4.large", t, local);
+        },
+    );
+    // every number 0..=9999 from two base states in every tier (aliasing through narrowing casts)
+    let two: Vec<Base> = bases.iter().filter(|b| b.columns == 3).step_by((bases.len() / 2).max(1)).take(2).cloned().collect();
+    sweep(
+        c,
+        &two,
+        |_| {
+            let mut v = Vec::with_capacity(40000);
+            for n in 0..=9999u32 {
+                for private in [false, true] {
+                    v.push(Op::Sm(vec![n], private));
+                    v.push(Op::Rm(vec![n], private));
+                }
+            }
+            v
+        },
+        |c, t, local| {
+            local.count("all_numbers_transitions");
+            refine_all(c, "C12", "E4.all-numbers", t, local);
         },
     );
     // lists of length 1..3 over the supported modes + 2 unsupported, both spellings; repeated set/reset
@@ -1926,6 +1974,33 @@ pub fn c08(c: &Collector, g: &mut Guard) {
             c08_judge(c, t, "E4.extended", local);
         },
     );
+    // (3b) long lists (fixed-size parameter tables, recursion depth, quadratic folds)
+    let b3b: Vec<Base> = bases_few.iter().take(3).cloned().collect();
+    sweep(
+        c,
+        &b3b,
+        |_| {
+            let mut v = Vec::new();
+            for n in [15usize, 16, 17, 31, 32, 33, 64, 65, 100, 255, 256, 257, 1000] {
+                let mut a = vec![0u32; n - 3];
+                a.extend([1, 4, 7]);
+                v.push(Op::Sgr(a.clone()));
+                v.push(csi(&a.iter().map(|x| x.to_string()).collect::<Vec<_>>().join(";"), 'm'));
+                let mut b: Vec<u32> = (0..n as u32 - 5).map(|i| 30 + (i % 8)).collect();
+                b.extend([38, 2, 1, 2, 3]);
+                v.push(Op::Sgr(b.clone()));
+                v.push(csi(&b.iter().map(|x| x.to_string()).collect::<Vec<_>>().join(";"), 'm'));
+                let mut d: Vec<u32> = vec![38; n - 1];
+                d.push(5);
+                v.push(Op::Sgr(d));
+            }
+            v
+        },
+        |c, t, local| {
+            local.count("long_lists");
+            c08_judge(c, t, "E4.long-lists", local);
+        },
+    );
     // (4) through the parser
     let b4: Vec<Base> = bases_few.iter().take(3).cloned().collect();
     let codes3 = codes.clone();
@@ -1967,6 +2042,7 @@ pub fn c08(c: &Collector, g: &mut Guard) {
     g.need(c, "rendition_changed");
     g.need(c, "drawn_after");
     g.need(c, "extended_forms");
+    g.need(c, "long_lists");
     g.need(c, "parser_path_transitions");
 }
 
